@@ -154,7 +154,14 @@ func classifyRecv(flags uint64, err error, out json.RawMessage) recvObs {
 
 func init() {
 	commands["client"] = func(e *env) error {
-		return e.each(func(i int, g *Rng) error {
+		return e.each(func(i int, g0 *Rng) error {
+			g := g0
+			// thorough tier: the same reply stream is cut at 48 evenly spread offsets in 48 consecutive cases
+			// (for streams up to 47 bytes that is every offset), so the server dies at every point of it
+			everyOffset := e.tier == "thorough" && i%2 == 1
+			if everyOffset {
+				g = NewRng(e.seed).Fork(uint64(1<<40 + i/96))
+			}
 			flags := uint64(g.Intn(16))
 			if i < 64 {
 				flags = uint64(i % 16) // all 16 flag sets, four times over, first
@@ -198,7 +205,10 @@ func init() {
 				stream = append([]byte(`{"parameters":{"pad":`+g.bigString(5000+g.Intn(60000))+`}}`+"\x00"), stream...)
 			}
 			// server death: the stream ends at this offset
-			if g.Chance(1, 2) && len(stream) > 0 {
+			if everyOffset {
+				k := (i / 2) % 48
+				stream = stream[:len(stream)*k/47]
+			} else if g.Chance(1, 2) && len(stream) > 0 {
 				stream = stream[:g.Intn(len(stream)+1)]
 			}
 			segs := g.cut(stream)
